@@ -18,7 +18,7 @@ PID = "C08"
 
 
 RAHMEN = S("Rahmen")     # a Kombination whose only heap data lives in a NESTED Kombination (nr: Zahl, innen: Punkt)
-SAFE_FOR_RAHMEN = ["init", "assign", "byvalue", "byvalue", "return", "falls", "refcall", "same_twice", "global", "list_store", "listlit", "foreach"]
+SAFE_FOR_RAHMEN = ["init", "assign", "byvalue", "byvalue", "return", "falls", "refcall", "same_twice", "global", "list_store", "listlit", "foreach", "two_refs"]
 
 
 class AliasGen(Gen):
@@ -136,7 +136,7 @@ class AliasGen(Gen):
         if orig is None:
             return 0
         construct = r.choice(["init", "assign", "byvalue", "byvalue", "list_store", "field_store", "foreach", "return", "falls", "listlit", "boxing", "refcall", "same_twice",
-                              "same_twice", "part_ref", "part_ref", "global", "recursive", "operator", "operator", "nested_ref", "nested_ref", "foreach_source", "foreach_source"])
+                              "same_twice", "part_ref", "part_ref", "global", "recursive", "operator", "operator", "nested_ref", "nested_ref", "foreach_source", "foreach_source", "two_refs", "two_refs"])
         if ty in (RAHMEN, L(RAHMEN)):
             construct = r.choice(SAFE_FOR_RAHMEN)
         self.cells.add(("construct", construct, progcheck.tn(ty) + ("(nested)" if ty in (RAHMEN, L(RAHMEN)) else "")))
@@ -231,6 +231,34 @@ class AliasGen(Gen):
                 return 0
             if not self.try_top([ExprStmt(Call(f, [orig], NICHTS))] + self.observe(orig) + self.observe(other)):
                 return 0
+            return self.obs - n0
+        elif construct == "two_refs":
+            # two Referenz parameters (or a Referenz parameter and a global) that may name the SAME variable: `Speichere b in a` inside the
+            # callee is then a self-assignment in disguise; with different variables it is an ordinary copy whose holders stay independent
+            flavour = r.choice(["ref-ref", "ref-ref", "ref-global", "global-ref"])
+            fn = self.fresh("zr" if flavour == "ref-ref" else "glzr")     # "gl..": the callee names a global, the case must stay at top level
+            if flavour != "ref-ref":
+                self.cells.add(("construct", "global", "two_refs"))
+            pa, pb = Param("a_" + fn, ty, ref=True), Param("b_" + fn, ty, ref=True)
+            if flavour == "ref-ref":
+                f = FuncDecl(fn, [pa, pb], NICHTS, [Assign(Var(pa.name, ty), Var(pb.name, ty))])
+            elif flavour == "ref-global":
+                f = FuncDecl(fn, [pa], NICHTS, [Assign(Var(pa.name, ty), orig)])
+            else:
+                f = FuncDecl(fn, [pb], NICHTS, [Assign(orig, Var(pb.name, ty))])
+            self.form(f, ty)
+            self.prog.items.append(f)
+            self.cells.add(("two_refs", flavour, progcheck.tn(ty)))
+            other = self.declare(ty, self.nonempty_lit(ty) if ty != V else Cast(Lit(T, "anderes"), V))
+            if other is None:
+                return 0
+            same = [orig, orig] if flavour == "ref-ref" else [orig]
+            diff = [other, orig] if flavour == "ref-ref" else [other]
+            # same variable for both names, then different variables, then a mutation of one holder
+            if not self.try_top([ExprStmt(Call(f, same, NICHTS))] + self.observe(orig)):
+                return 0
+            self.try_top([ExprStmt(Call(f, diff, NICHTS))] + self.observe(orig) + self.observe(other))
+            self.try_top(self.mutation(other, r) + self.observe(orig) + self.observe(other))
             return self.obs - n0
         elif construct == "same_twice":
             # f(x by value, x by Referenz): callee only READS the value parameter (the -O 2 elision case) or assigns it
